@@ -28,8 +28,6 @@ def parse_httpdate(date):
     date = parsedate(date)
     if date is None:
         return None
-    if date[0] < 1970:
-        date = (date[0] + 2000,) + date[1:]
     try:
         return calendar.timegm(date)
     except (ValueError, OverflowError):
